@@ -124,11 +124,14 @@ structure Quirks where
   /-- a blocking pop executed by EXEC that finds nothing answers the null array at once
       (code: registers connection id 0 and answers nothing). -/
   refuseBlockingInTx : Bool
+  /-- a key named twice in one BLPOP/BRPOP is waited on once (code: registered twice, so that one push of
+      two elements wakes the same client twice and the second element is popped for nobody). -/
+  dedupKeys : Bool
 deriving DecidableEq, Repr
 
 /-- The tree as it is today (confirmed over TCP by lib/c13.py on every run). -/
-def Quirks.code : Quirks := ⟨false, false, false, false⟩
-def Quirks.fixed : Quirks := ⟨true, true, true, true⟩
+def Quirks.code : Quirks := ⟨false, false, false, false, false⟩
+def Quirks.fixed : Quirks := ⟨true, true, true, true, true⟩
 
 structure State where
   store : List (Key × Elem) := []
@@ -238,6 +241,9 @@ def iter {α : Type} (f : α → α) : Nat → α → α
   | 0, a => a
   | n+1, a => iter f n (f a)
 
+/-- The keys a blocking pop registers on. -/
+def regKeys (q : Quirks) (keys : List Key) : List Key := if q.dedupKeys = true then keys.eraseDups else keys
+
 /-- LPUSH/RPUSH/LPOP/RPOP/BLPOP/BRPOP executed for the client on wire connection `c`; `cid` is the
     connection id the handler receives: `c` itself, or 0 when called from `handle_exec`. -/
 def dataCmd (q : Quirks) (now : Nat) (c cid : Conn) (s : State) : Cmd → State
@@ -263,8 +269,8 @@ def dataCmd (q : Quirks) (now : Nat) (c cid : Conn) (s : State) : Cmd → State
         else
           let dl : Option Nat := if t = 0 then none else some (now + t)
           let w : Waiter := { conn := cid, deadline := dl, op := op }
-          setBlocked { s with registry := s.registry ++ keys.map fun k => (k, w) } cid
-            (some { keys := keys, deadline := dl, op := op })
+          setBlocked { s with registry := s.registry ++ (regKeys q keys).map fun k => (k, w) } cid
+            (some { keys := regKeys q keys, deadline := dl, op := op })
   | .multi => s
   | .exec => s
 
